@@ -27,8 +27,8 @@ import (
 func TestMain(m *testing.M) {
 	harness.Describe(
 		"expression trees (depth<=5) over {string, non-negative int, big int, nested binary arrays, decode values of a harness format with bit fields at arbitrary offsets, ._bits/._bytes} and {tobits, tobytes, tobits(n), tobytes(n), tobitsrange, tobytesrange, .[i], .[a:b] (negative, reversed, out of range, open), .bits, .bytes, tonumber, tostring, explode, to_hex, length, .size/.start/.stop/.unit}, views fed back as sources, invalid members (-1, 256, big, null, true, {}) that must raise an error; 24 trees share one Eval and one decoded buffer. Every tree is one counted case: non-trivial = the model fixes the outcome, at least two binary-producing operators were applied and some intermediate binary has a bit length or source offset that is not a multiple of 8; distinct = hash of the rendered jq expression (+ buffer when a decode value is used). TestLaws compares two fq results with each other (split/concat, padding, explode, unit independence, index vs slice).",
-		"a byte-unit binary whose bit length is not a multiple of 8 (tobytesrange / .bytes / ._bytes of an unaligned range): only conversions, tonumber, .bits/.bytes and .unit are asserted; index, slice, length, explode, .size/.start/.stop, tostring and to_hex are evaluated for totality only",
-		".start/.stop are asserted only for non-empty binaries whose source offset is a multiple of the unit",
+		"a binary exposes floor(bits/unit) whole units: for a byte-unit binary whose bit length is not a multiple of 8 (tobytesrange / .bytes / ._bytes of an unaligned range) slices, indexes, length, .size and explode are modelled on the whole bytes only (the partial trailing byte is never part of them); only tostring and to_hex of such a binary are evaluated for totality only (the documentation does not say which side is padded)",
+		".start/.stop are asserted for every non-empty binary as the smallest run of whole units that covers its bits (start rounded down, stop rounded up); for empty binaries they are not asserted",
 		"to_hex/tostring of bit binaries are byte padded after the last bit (pinned by binary.fqtest: 1|tobits(n)|tohex); to_hex of a non-binary is asserted only when it flattens to whole bytes",
 		"negative top-level numbers, fractional numbers and negative tobits(n) arguments are not generated (outside the statement); error messages are not compared",
 		"each rapid case (a batch) adds one trivial evaluation to the counters besides its trees",
